@@ -89,6 +89,10 @@ def specFill (ft : String) (xmax : Rat) : Rat → List Timed → List Timed
 
 def absRat (x : Rat) : Rat := if x < 0 then -x else x
 
+/-- `|a - b| ≤ ½·10⁻ᵖ` as a proposition: `a` is within half a unit of the `p`-th decimal of `b`. -/
+def Near (p : Nat) (a b : Rat) : Prop :=
+  b - (1/2) / ((10 ^ p : Nat) : Rat) ≤ a ∧ a ≤ b + (1/2) / ((10 ^ p : Nat) : Rat)
+
 /-- `|a - b| ≤ ½·10⁻ᵖ`. -/
 def withinHalfUlp (p : Nat) (a b : Rat) : Bool :=
   decide (absRat (a - b) ≤ (1/2 : Rat) / ((10 ^ p : Nat) : Rat))
@@ -129,5 +133,25 @@ def TgFile.textOk (f : TgFile) : Bool :=
 
 /-- `|a - b| < shift`. -/
 def withinShift (shift a b : Rat) : Bool := decide (absRat (a - b) < shift)
+
+/-- The id of a token as the documentation of `transcript_to_token` gives it: without a `token2id` the token
+itself ("`unk` has no effect"); with one, `token2id[token]`; a token that is not a key becomes the `unk` id —
+`token2id[unk]` if `unk` is a key, else `unk` itself — and, without an `unk`, stays itself. An empty
+`token2id` is a vocabulary in which every token is unknown; `unk = 0` is an id like any other. -/
+def specId (token2id : Option (List (Tok × Int))) (unk : Option Tok) (t : Tok) : Tok :=
+  match token2id with
+  | none => t
+  | some m => match m.lookup t with
+    | some v => .i v
+    | none => match unk with
+      | none => t
+      | some u => match m.lookup u with
+        | some v => .i v
+        | none => u
+
+/-- Only an integer can be stored in the token tensor. -/
+def idOfTok : Tok → Except FrErr Int
+  | .i v => .ok v
+  | .s _ => .error .badId
 
 end PdtVerif.Transcripts
